@@ -11,7 +11,7 @@ from dataclasses import dataclass, field
 from typing import List, Optional, Dict, Tuple
 
 SUB = {'ret', 'attr', 'spec', 'prologue', 'epilogue', 'loop', 'after', 'before', 'try', 'breakret', 'orsplit',
-       'shape', 'props', 'member', 'strmatch', 'forwhile', 'tailbind', 'sig', 'swap', 'note', 'selfret', 'tokens', 'vis', 'unwrap_tail', 'implicit', 'breakassign', 'closure', 'foriter', 'bindrecv', 'wrapcall', 'traitspec', 'constspec', 'mutself', 'norules', 'mutparam', 'callmon', 'select', 'whilelet', 'forloop', 'callfn', 'fmtwrite', 'bytelits', 'strmatches'}
+       'shape', 'props', 'member', 'strmatch', 'forwhile', 'tailbind', 'sig', 'swap', 'note', 'selfret', 'tokens', 'vis', 'unwrap_tail', 'implicit', 'breakassign', 'closure', 'foriter', 'bindrecv', 'wrapcall', 'traitspec', 'constspec', 'mutself', 'norules', 'mutparam', 'callmon', 'select', 'whilelet', 'forloop', 'callfn', 'fmtwrite', 'bytelits', 'strmatches', 'predclosures'}
 
 
 @dataclass
